@@ -223,6 +223,13 @@ func (e *Exec) evalIdent(env *Env, x *ast.Ident) Val {
 			}
 		}
 	}
+	// declared package-level variables (`global Name = value`)
+	if env.pkg != nil {
+		if gd := e.P.CS.Globals[env.pkg.Path()+"."+x.Name]; gd != nil {
+			genv := &Env{e: e, vars: map[string]Val{}, st: env.st, ctx: "global " + x.Name}
+			return e.evalExpr(genv, gd.Expr)
+		}
+	}
 	return env.fail("unknown identifier %q", x.Name)
 }
 
